@@ -36,6 +36,19 @@ type Step struct {
 	Kind  string `json:"kind"`
 	Lines []Line `json:"lines,omitempty"`
 	Text  string `json:"text,omitempty"`
+	// Uncut (credential prompts): Text is several lines (a notice that itself ends like a prompt, then
+	// the real prompt) which the transport delivers in ONE read; the notice does not consume a line.
+	// One read holding two prompt-looking lines is one match on the buffer, hence one answer.
+	Uncut bool `json:"uncut,omitempty"`
+}
+
+// firstMatch is the smallest deliverable prefix of a credential step's text on which its pattern
+// matches (an uncut text is only ever seen whole).
+func firstMatch(s Step) int {
+	if s.Uncut {
+		return len(s.Text)
+	}
+	return earliest(specFor(s.Kind), s.Text)
 }
 
 // Outcome classes.
